@@ -39,6 +39,36 @@ def in_window(addr: int) -> bool:
     return 0x2000 <= addr <= 0x2FFF or 0xA000 <= addr <= 0xAFFF
 
 
+def run_values(v0: int, step: int, n: int) -> List[int]:
+    """Values of the bulk write verb ["W", addr, v0, step, n]."""
+    return [(v0 + i * step) & 0xFF for i in range(n)]
+
+
+class RunDigest:
+    """Encoding of a sequence of read results (shared by the model, the Python driver and c15.rs)."""
+
+    def __init__(self) -> None:
+        self.last: Optional[int] = None
+        self.some = 0
+        self.fnv = 0x811C9DC5
+
+    def add(self, r: Optional[int]) -> None:
+        self.last = r
+        if isinstance(r, int) and not isinstance(r, bool) and 0 <= r <= 0xFF:
+            code = r
+            self.some += 1
+        elif r is None:
+            code = 0x100
+        else:  # not a byte: make the digest differ from every legal sequence
+            code = 0x1FF
+            self.some += 1 << 40
+        self.fnv = ((self.fnv ^ (code & 0xFF)) * 0x01000193) & 0xFFFFFFFF
+        self.fnv = ((self.fnv ^ (code >> 8)) * 0x01000193) & 0xFFFFFFFF
+
+    def result(self) -> Tuple[Optional[int], int, int]:
+        return self.last, self.some, self.fnv
+
+
 class Chip:
     __slots__ = ("on", "busy", "start_line", "page", "y", "vram")
 
@@ -125,6 +155,18 @@ class Model:
         status = (0x80 if c.busy else 0) | (0 if c.on else 0x20)
         c.busy = False
         return status
+
+    # -- runs (the bulk verbs of the op language: n accesses of the same address) ----------------------------
+    def write_run(self, addr: int, v0: int, step: int, n: int) -> None:
+        for i in range(n):
+            self.write(addr, (v0 + i * step) & 0xFF)
+
+    def read_run(self, addr: int, n: int) -> Tuple[Optional[int], int, int]:
+        """(last result, number of non-None results, FNV-1a/32 over the results with None coded as 0x100)."""
+        acc = RunDigest()
+        for _ in range(n):
+            acc.add(self.read(addr))
+        return acc.result()
 
     # -- views ---------------------------------------------------------------------------------------------
     def regs(self) -> List[Tuple[bool, int, int, int]]:
